@@ -794,6 +794,117 @@ func checkC09(c *Check, p *Program) {
 	for k, v := range want {
 		c.Decide(v, "C09.H8", sn+" defers "+k, p.Pos(t.serve.Pos()), "unconditional defer before the serve loop, dominating every return", "serve does not unconditionally defer "+k+": termination leaves Inbound open, pending Sends waiting, or Close blocked")
 	}
+	checkTunnelConstructor(c, p, a, t)
+	// the processing loop hands every connection-state response to its handler
+	nH := 0
+	instrsOf(t.process, func(in ssa.Instruction) {
+		if staticCallTo(in, t.stateResH) {
+			nH++
+		}
+	})
+	c.Exact("C09.H3", "call sites of the connection-state response handler in the processing loop", nH, 1, p.Pos(t.process.Pos()))
+}
+
+// checkTunnelConstructor: the constructor dials the transport the
+// configuration asks for, connects before it starts the worker, starts the
+// worker exactly when the connect succeeded and reports a failed dial or
+// connect as an error.
+func checkTunnelConstructor(c *Check, p *Program, a *tunnelAnchors, t *tunnelFns) {
+	if t.ctor == nil || t.connect == nil {
+		c.Fail("C09.H7", "tunnel constructor", "", "not found")
+		return
+	}
+	cn := FuncName(t.ctor)
+	useTCP := p.Field("knx", "TunnelConfig", "UseTCP")
+	tcpDial, udpDial := p.Func("knx/knxnet", "DialTunnelTCP"), p.Func("knx/knxnet", "DialTunnelUDP")
+	nDial := 0
+	instrsOf(t.ctor, func(in ssa.Instruction) {
+		for _, d := range []struct {
+			fn   *ssa.Function
+			want bool
+			name string
+		}{{tcpDial, true, "TCP"}, {udpDial, false, "UDP"}} {
+			if d.fn == nil || !staticCallTo(in, d.fn) {
+				continue
+			}
+			nDial++
+			okF := anyFact(factsAt(in.Block()), func(f Cmp) bool {
+				return cmpIsBool(f, d.want, func(v ssa.Value) bool { return loadedField(unspill(v)) == useTCP || fieldOfValue(v) == useTCP })
+			})
+			c.Decide(okF, "C09.H7", cn+" dials "+d.name+" exactly when configured", p.InstrPos(in), fmt.Sprintf("behind config.UseTCP == %v", d.want), "the transport that is dialled does not follow config.UseTCP: the tunnel runs its UDP exchange (sequence numbers, acknowledgements) over a stream or the other way round")
+		}
+	})
+	if nDial == 0 {
+		// the dial function chosen first and called once: dial := DialTunnelUDP; if UseTCP { dial = DialTunnelTCP }
+		instrsOf(t.ctor, func(in ssa.Instruction) {
+			call, ok := in.(*ssa.Call)
+			if !ok || call.Common().StaticCallee() != nil || call.Common().IsInvoke() {
+				return
+			}
+			ph, ok := call.Common().Value.(*ssa.Phi)
+			if !ok {
+				return
+			}
+			for i, e := range ph.Edges {
+				fnv, _ := e.(*ssa.Function)
+				pred := ph.Block().Preds[i]
+				fs := append(factsAt(pred), edgeFacts(pred, ph.Block())...)
+				for _, d := range []struct {
+					fn   *ssa.Function
+					want bool
+					name string
+				}{{tcpDial, true, "TCP"}, {udpDial, false, "UDP"}} {
+					if fnv == nil || fnv != d.fn {
+						continue
+					}
+					nDial++
+					okF := anyFact(fs, func(f Cmp) bool {
+						return cmpIsBool(f, d.want, func(v ssa.Value) bool { return loadedField(unspill(v)) == useTCP || fieldOfValue(v) == useTCP })
+					})
+					c.Decide(okF, "C09.H7", cn+" dials "+d.name+" exactly when configured", p.InstrPos(call), fmt.Sprintf("the dial function is chosen behind config.UseTCP == %v", d.want), "the transport that is dialled does not follow config.UseTCP")
+				}
+			}
+		})
+	}
+	c.Exact("C09.H7", "dial sites in the tunnel constructor", nDial, 2, p.Pos(t.ctor.Pos()))
+	// connect, then serve
+	var connCall *ssa.Call
+	var goServe *ssa.Go
+	instrsOf(t.ctor, func(in ssa.Instruction) {
+		if staticCallTo(in, t.connect) {
+			connCall = in.(*ssa.Call)
+		}
+		if g, ok := in.(*ssa.Go); ok && g.Common().StaticCallee() == t.serve {
+			goServe = g
+		}
+	})
+	if connCall == nil || goServe == nil {
+		c.Fail("C09.H7", cn+" connects before it serves", p.Pos(t.ctor.Pos()), "the constructor does not call the connect function and start the worker")
+		return
+	}
+	okOrder := instrDominates(connCall, goServe) && anyFact(factsAt(goServe.Block()), func(f Cmp) bool {
+		return f.Op == token.EQL && ((f.X == ssa.Value(connCall) && isNilConst(f.Y)) || (f.Y == ssa.Value(connCall) && isNilConst(f.X)))
+	})
+	c.Decide(okOrder, "C09.H7", cn+" starts the worker exactly when the connect succeeded", p.InstrPos(goServe), "go serve behind connect() == nil", "the worker is started without a successful connect (or the connect is skipped): frames carry channel 0 and the gateway ignores them")
+	for _, r := range returnsOf(t.ctor) {
+		if len(r.Results) < 2 {
+			continue
+		}
+		if !p.returnMayBeNil(r, 1) {
+			continue
+		}
+		// a success return: lies behind the started worker
+		c.Decide(instrDominates(goServe, r), "C09.H7", cn+" success only with a connected, served tunnel", p.InstrPos(r), "behind the go statement", "the constructor can report success without a connected tunnel being served")
+	}
+}
+
+// fieldOfValue: v is a field read out of a structure value (config.UseTCP with
+// config a parameter).
+func fieldOfValue(v ssa.Value) *types.Var {
+	if f, ok := unspill(v).(*ssa.Field); ok {
+		return structField(f.X.Type(), f.Field)
+	}
+	return nil
 }
 
 // checkHandlerOutcome: in process, the edge "handler returned an error" leads
